@@ -115,8 +115,9 @@ def worker(kp, job):
             viol.append(('query-raises', f'a query raised {type(e).__name__} (filter {f})', {'text': text, 'filter': f}))
             records.append(engine.rec('queries', impl=impl, req=None, viol=viol, key=(text, tuple(f or ())))); viol = []
             continue
-        closure = TC.valid(include=fa)
-        sub = [t for t in allt if t.category in closure]
+        from harness import spec
+        closure = set(CATS) if f is None else spec.closure(kp, f, None)      # from the documented tree, not from valid()
+        sub = [t for t in allt if t.category.name in closure]
         if [id(t) for t in lst] != [id(t) for t in sub]:
             viol.append(('filtered-subsequence', f'filter {f}: the listing is not the sub-sequence of the full listing', {'text': text, 'filter': f}))
         first = []
